@@ -23,10 +23,11 @@ import (
 //      doc/user-guide.md:82 ("srandmember √, 按顺序返回"); rockredis/t_set.go:286
 //      ("we do not use rand here"), SPop = sMembersN + SRem.
 //  D3  SRANDMEMBER without count answers an array of at most one member (not a
-//      bulk); a count < 1 is rejected ("Invalid count") instead of Redis'
-//      negative-count form. node/set.go:44-73 (srandmembersCommand writes
-//      WriteArray in both forms; cnt < 1 -> error). Negative counts are not
-//      generated.
+//      bulk); a count < 1 is an error ("Invalid count") instead of Redis'
+//      negative-count form. node/set.go:44-73 (srandmembersCommand); the
+//      repository's own API test expects exactly that:
+//      server/redis_api_setlistzset_test.go:612 (goredis.Values(srandmember
+//      key)) and :989-995 (count 0 and -1 must fail).
 //  D4  a single value / field value larger than 8 MB is refused
 //      (SETRANGE/APPEND: offset+len > 8 MB -> error). doc/user-guide.md:7
 //      ("单个value大小不能大于8MB"); rockredis/t_kv.go checkValueSize, SetRange.
@@ -67,12 +68,19 @@ import (
 //      float64 -> bulk 'g' format).
 //  D13 ZRANGEBYLEX / ZLEXCOUNT / ZREMRANGEBYLEX are only specified (by Redis)
 //      when all scores are equal; with mixed scores the model does not judge
-//      the reply of the two read commands and does not generate
-//      ZREMRANGEBYLEX.
-//  D14 score range bounds accept "-inf"/"+inf" and finite numbers only; the
-//      spelling "inf"/"infinity" without sign or an infinite literal is refused
-//      (node/zset.go getScoreRange: bounds must lie strictly inside
-//      (MinScore,MaxScore)). Not generated.
+//      the reply of the two read commands, and a ZREMRANGEBYLEX on mixed scores
+//      ends the evaluation of that sequence (Exp.Abort; not a failure).
+//  D14 refused argument spellings (an error instead of Redis' empty result or
+//      Redis' acceptance): score range bounds accept "-inf" only as min and
+//      "+inf" only as max, otherwise a finite number strictly inside
+//      (-2^63, 2^63) with optional "(" - so "inf", "infinity", "+inf" as min,
+//      "-inf" as max, 1e19 are errors (node/zset.go getScoreRange: special
+//      cases only for left=="-inf" / right=="+inf", then "leftRange <=
+//      common.MinScore || >= common.MaxScore -> errInvalidRange"); lex ranges
+//      accept "-" only as min and "+" only as max (node/zset.go getLexRange).
+//      The same functions run on the leader before a ZREMRANGEBY* is proposed
+//      (D11), so the generator emits only accepted ranges for those writes.
+//  D15 a table counter is kept per table (not modelled, not compared: C12).
 // ---------------------------------------------------------------------------
 
 type Reply = smlab.Reply
@@ -176,6 +184,10 @@ type Model struct {
 	// classify a mismatch as predecessor-members-visible.
 	gens map[string]int
 	prev map[string]map[string]bool
+	// ever: per type+key, member -> generation counter at its latest insertion;
+	// genTs: log timestamps at which generations of the key were created
+	ever  map[string]map[string]int
+	genTs map[string][]int64
 	// local deletion: expire records ever given per type+"|"+tk (D6)
 	recs map[string][]int64
 	// deviations exercised (evidence)
@@ -192,7 +204,8 @@ func NewModel(policy string) *Model {
 	return &Model{Policy: policy,
 		kv: map[string]*kvEnt{}, hash: map[string]*hashEnt{}, list: map[string]*listEnt{},
 		set: map[string]*setEnt{}, zset: map[string]*zsetEnt{},
-		gens: map[string]int{}, prev: map[string]map[string]bool{}, recs: map[string][]int64{}, Dev: map[string]int{}}
+		gens: map[string]int{}, prev: map[string]map[string]bool{}, recs: map[string][]int64{}, Dev: map[string]int{},
+		ever: map[string]map[string]int{}, genTs: map[string][]int64{}}
 }
 
 func (m *Model) dev(id string) { m.Dev[id]++ }
@@ -244,9 +257,46 @@ func (m *Model) remember(typ, tk string, members []string) {
 	}
 }
 
-// PrevMembers returns the members/fields/elements that earlier generations of
-// the key held.
-func (m *Model) PrevMembers(typ, tk string) map[string]bool { return m.prev[typ+"|"+tk] }
+// noteAdd records that member x was inserted into the current generation.
+func (m *Model) noteAdd(typ, tk, x string) {
+	k := typ + "|" + tk
+	if m.ever[k] == nil {
+		m.ever[k] = map[string]int{}
+	}
+	m.ever[k][x] = m.gens[k]
+}
+
+// noteGen records the log timestamp at which a new generation was created.
+func (m *Model) noteGen(typ, tk string, ts int64) {
+	k := typ + "|" + tk
+	m.genTs[k] = append(m.genTs[k], ts)
+}
+
+// GenCollision: was an EARLIER generation of the key created at exactly ts?
+// (the stored generation number is the creating entry's log timestamp:
+// rockredis/t_ttl_compact.go renewOnExpired "oldh.ValueVersion = ts")
+func (m *Model) GenCollision(typ, tk string, ts int64) bool {
+	g := m.genTs[typ+"|"+tk]
+	for i := 0; i+1 < len(g); i++ {
+		if g[i] == ts {
+			return true
+		}
+	}
+	return false
+}
+
+// PrevMembers returns the members/fields/elements that only earlier
+// generations of the key held (inserted before the current generation began).
+func (m *Model) PrevMembers(typ, tk string) map[string]bool {
+	k := typ + "|" + tk
+	out := map[string]bool{}
+	for x, g := range m.ever[k] {
+		if g < m.gens[k] {
+			out[x] = true
+		}
+	}
+	return out
+}
 
 func parseInt(s string) (int64, bool) {
 	n, err := strconv.ParseInt(s, 10, 64)
@@ -357,7 +407,7 @@ func (m *Model) persistCmd(o Op, exists bool, cur int64, clear func()) Exp {
 		return Exp{R: rErr("change ttl is not supported in current expire policy")}
 	}
 	if cur == 0 {
-		return Exp{R: rInt(0)}
+		return Exp{R: rInt(0), Class: "persist-without-ttl"}
 	}
 	clear()
 	return Exp{R: rInt(1)}
